@@ -11,7 +11,7 @@ TRUST = ("Trusted base: go/packages+go/types+go/ssa+go/cfg of x/tools v0.50.0 un
 
 CLAIMED = {
  "C09": dict(
-  technique="static analysis: go/cfg must-pass-through / must-precede path rules + field-ownership (who-may-write) rule",
+  technique="static analysis: go/cfg must-pass-through / must-precede path rules (progress writes, Total freshness, deferred final write) + field-ownership (who-may-write) rule + index-provenance rule",
   text="Structural clauses decided for every path of Executor.Execute/exec (hence for every fault position): a statement is counted only on the success edge of its ExecContext, the hash is appended and Applied incremented before the revision is written and before the next statement, the revision is written after every statement and in a deferred final write, every error branch leaves the loop, the loop resumes at stmts[r.Applied:], exec runs files in the given order fail-stop, and nobody else stores Applied/PartialHashes. This is the clause 'the history never claims more than was executed, and a later run continues at the first unrecorded statement' in full; a static path argument is the right level because the clause is about the order of two effects on all paths.",
   note="Not decided: ordering of files by version string (Dir.Files), that the driver executes exactly the given text, behaviour of the RevisionReadWriter implementation. ",
   ref="DESIGN.md §3 C09"),
@@ -21,7 +21,7 @@ CLAIMED = {
   note="Not decided: hash equality semantics; the revision row is re-written (ExecutedAt/OperatorVersion) before the comparison, which the rule does not count as touching the history. ",
   ref="DESIGN.md §3 C12"),
  "C14": dict(
-  technique="static analysis: CHA call-graph effect reachability + go/cfg defer-dominance path rules + caller-ownership rule",
+  technique="static analysis: CHA call-graph effect reachability + go/cfg defer-dominance path rules + caller-ownership rule + resource-closure path rule for SQLite cursors with callee summaries + deadline-context flow rule",
   text="Decides for all inputs and all failure positions: no Snapshot implementation can execute a statement before returning (a refused dev database is untouched); at each of the call sites of Snapshot the restore function is deferred before any other call or return, every database write of the snapshot-holding functions is dominated by that defer, the private database-writing methods of DevLoader/DevDriver are called only from snapshot holders, the restore error reaches a named result; and from Executor.Replay no directory-mutating call is reachable in sql/migrate except CopyFiles into a MemDir allocated locally. Cleanup on every exit is a property of all paths of a few functions, which is exactly what a path rule decides.",
   note="Not decided: that the restore function removes every object kind on a real engine, and that the cleanliness test (value-level) recognises every non-empty database. StateReader/Driver callbacks passed into Replay are analysed in their own packages, not followed from Replay. ",
   ref="DESIGN.md §3 C14"),
@@ -36,7 +36,7 @@ CLAIMED = {
   note="Not decided: that the reverse SQL text composes to an inverse on an engine; reverse statements of non-ALTER changes (create/drop table, index statements) are checked only for presence via SetReversible. ",
   ref="DESIGN.md §3 C17"),
  "C08": dict(
-  technique="static analysis: field-store shape enumeration (who-may-write + accepted shapes) for the scanner cursors, go/cfg pairing rule for nested scanners, anchor/advance agreement lint",
+  technique="static analysis: symbolic linear/substring abstract interpretation of every Scanner method proving the cursor invariant (E-lin), who-may-write rule for the cursor fields, go/cfg pairing rule for nested scanners, loop-progress path rule, anchor/advance agreement lint",
   text="Decides that the scanner's cursor invariant total == len(src)-len(input)+pos is preserved by every store in the package (closed set of shapes; anything else fails), that every advance after a look-behind match equals matched-length minus look-behind, that nested scanners start at input[pos:] and their consumed bytes are added back on every success path, that Stmt.Pos is total-len(text) and that the lint consumer indexes the same string. Position accuracy is exactly this invariant; a shape rule decides it for all inputs where a test compares statement texts only.",
   note="Not decided: termination/totality on arbitrary bytes, losslessness beyond the cursor invariant, regexp semantics. Shapes other than the canonical ones are reported as not recognised (fail) rather than guessed. ",
   ref="DESIGN.md §3 C08"),
@@ -71,7 +71,7 @@ CLAIMED = {
   note="Not decided: token-level absence of the name in every statement (needs running the planners); whether RefTable's cross-schema reference under the empty qualifier is acceptable for multi-tenant use. ",
   ref="DESIGN.md §3 C16"),
  "C01": dict(
-  technique="static analysis: per-dialect SSA change-kind flow analysis (what the differ may emit) vs. table extraction of planner switch cases (what is handled) + go/cfg order and all-paths rules on the SQLite rebuild, index-part writers and Normalize",
+  technique="static analysis: per-dialect SSA change-kind flow analysis (what the differ may emit) vs. table extraction of planner switch cases (what is handled) + go/cfg order and all-paths rules on the SQLite rebuild, index-part writers and Normalize + query/consumer agreement between the pragma queries of the inspector and the scanned ordinals",
   text="Decides for every schema pair: every change kind a dialect's differ can emit (top level / nested in ModifyTable, guarded kinds removed per SupportChange) has a handler case in that dialect's planner, so no difference can be silently ignored by a planner switch; SQLite's in-place set is a subset of what alterTable handles; the rebuild procedure keeps its order; key-part writers consult Desc on every path; the differ normalises generated index names before every successful return; schema apply applies exactly the computed changes. Necessary conditions of convergence only.",
   note="Not decided: that the SQL printed for a handled kind, executed by an engine, produces the desired object; attribute-level completeness of handlers; name normalisation values. Kinds outside the OSS feature set (views, functions, procedures, triggers) are reported in the evidence, not checked. ",
   ref="DESIGN.md §3 C01"),
@@ -101,12 +101,12 @@ CLAIMED = {
   note="Not decided: zero-vs-absent parameter handling, byte-identical re-marshalling, Format∘Parse fixpoint for every type string. The reader side of the key agreement is recognised liberally (any constant key passed to a look-up helper counts as read). ",
   ref="DESIGN.md §3 C15"),
  "C18": dict(
-  technique="static analysis: decision-table extraction of the destructive analyzer, registry exhaustiveness, go/cfg per-statement ordering rules in the change loader, guard rule for the whole-file shortcut",
+  technique="static analysis: decision-table extraction of the destructive analyzer, registry exhaustiveness, go/cfg per-statement ordering rules in the change loader, guard rule for the whole-file shortcut, definition-provenance rule for the threaded realm, accumulation rule for the life-span lattice",
   text="Decides that every driver registers the (failing-by-default) destructive analyzer; that the analyzer reports DropSchema, DropTable and DropColumn inside ModifyTable, positions every diagnostic at the examined statement, exempts only objects whose span is exactly temporary, always writes a non-empty report and fails with Error; that SQLite's rebuild merge runs before the analyzers; that changes are derived statement by statement (exec ≺ inspect ≺ diff(before, after) ≺ record with that statement, state advanced) and the whole-file shortcut is used only for the first file without a base; that analyzer errors reach the file report.",
   note="Not decided: what SQLite and the inspector report for a given SQL text (whether a drop is seen at all), span bookkeeping for every sequence, --latest window selection. ",
   ref="DESIGN.md §3 C18"),
  "C20": dict(
-  technique="static analysis: order-sensitivity lint over every map range of both modules (effect classification + sorted-before-escape check, triaged exception table) + call-graph effect analysis for package-level stores",
+  technique="static analysis: order-sensitivity lint over every map range of both modules (effect classification + sorted-before-escape check, triaged exception table) + call-graph effect analysis for package-level stores and ambient inputs + alias-derivation analysis proving the planners never store into their input",
   text="Decides for all inputs: every iteration over a Go map in the analysed code is order-insensitive by construction (map/set writes, commutative accumulation, collect-then-sort, element-independent exits) or is a listed, reasoned exception; no package-level variable is written on any path reachable from the planners, differs, marshaller, formatter and hash construction; every PlanChanges allocates its own state. These are the two ways output can depend on run-to-run randomness or on unrelated concurrent work.",
   note="Not decided: data races under a real scheduler, nondeterminism inside third-party libraries, byte equality across processes (follows only if the above are the sole sources). 14 sites are listed exceptions (reason per site in the checker). ",
   ref="DESIGN.md §3 C20"),
@@ -132,7 +132,29 @@ SECOND_PASS = {
  "C19": " Second pass: exclusion side effects only on matching resources; no planner re-creates a table from ModifyTable.T (SQLite rebuild: known finding D16).",
  "C20": " Second pass: file bytes come from a buffer created in the same function; no in-place filter/delete on an input slice in planner/differ files.",
 }
+THIRD_PASS = {
+ "C01": " Third pass: referential actions printed under a guard on that same field; copyRows lists a column only where it is known not to be generated; the SeqNo of an inspected SQLite key part is the engine's ordinal (query/consumer agreement over the pragma queries).",
+ "C02": " Third pass: the position handed to IndexPartAttrChanged indexes the very slices from.Parts/to.Parts (not separately sorted copies); SQLite defaults compared exactly.",
+ "C03": " Third pass: no byte-walker of the sqlite package treats a backslash as an escape; a quoted literal loses its quotes only as the operand of an unescaping call.",
+ "C04": " Third pass: sort comparators read only the slice being sorted; SortChanges emits from the regrouped list its edges were computed over.",
+ "C05": " Third pass: the planner's skipFKs flag is monotone; only Driver.OpenTx opens a transaction in sql/sqlite (foreign keys are switched off before BEGIN).",
+ "C06": " Third pass: the sum-file writer and reader agree on the separator (split at the last one); every write-open of a Dir implementation truncates.",
+ "C07": " Third pass: the delimiter escape table of the writer is the inverse of the reader's table, pair by pair; conditional escaping follows the template branches.",
+ "C08": " Third pass: the cursor invariant s.input == s.src[a:] and s.total == a + s.pos is proved by a symbolic linear/substring abstract interpretation of every Scanner method (E-lin); every scanner loop consumes input and tests the end marker on every path through an iteration.",
+ "C09": " Third pass: no statement is executed while Revision.Total is stale (found D26); index provenance (an index found in slice B indexes B only) over the migrate package.",
+ "C10": " Third pass: index provenance over the migrate package.",
+ "C12": " Third pass: PartialHashes/Applied/Total are stored only by Execute; every Set<Field> of the generated SetRevision is unconditional (an upsert cannot clear a skipped column).",
+ "C13": " Third pass: every field of a revision is persisted on every write; ApplyChanges on a client is reached only through applyChanges, which honours --tx-mode.",
+ "C14": " Third pass: every *sql.Rows of the SQLite driver is closed on every CFG path from its acquisition, with callee summaries (found D24); the deferred restore does not run with a context the same function bounded by a deadline, and no deadline-bounded context of the command layer is handed to a call that can reach Snapshot.",
+ "C15": " Third pass: a schema.Comment is written whenever it is present (presence round-trip); a quoted literal loses its quotes only as the operand of an unescaping call.",
+ "C16": " Third pass: no qualifier-aware writer is called on a Builder.Clone(); CheckChangesScope has a case for every table-carrying change kind the planners accept at top level.",
+ "C18": " Third pass: every write of SpanDropped accumulates; every statement-executing DevLoader method returns a realm derived from an inspection, never only the start realm it was given.",
+ "C19": " Third pass: the desired-state readers choose between ExcludeSchema and IncludeSchema with one condition on the reported scope; DiffSkipChanges appends.",
+ "C20": " Third pass: no clock/random/environment call reachable from the planners, differs, marshaller, formatter and checksum; the planner files never store into a schema object that is or was obtained from a parameter (two idempotent normalisations listed by name with their reason); the slice helpers of sql/schema never build their result in the argument's backing array.",
+}
 for _k, _v in SECOND_PASS.items():
+    CLAIMED[_k]["text"] += _v
+for _k, _v in THIRD_PASS.items():
     CLAIMED[_k]["text"] += _v
 
 NA = {}
